@@ -23,53 +23,64 @@ LOGLOCKS = ('writers::file_log_writer::state::State', 'writers::buffer_writer::S
 # (function regex, kind, operand regex, max count, class, reason)      classes: INV DOC POI RES GEN F(inding: listed in known_findings.json)
 TRIAGE = [
     (r'From<std::convert::Infallible>>::from$', 'panic', r'.*', 1, 'INV', 'Infallible is uninhabited'),
-    (r'FlexiLogger as log::Log>::(enabled|log)$', 'assert', r'overflow:Sub', 1, 'INV', "starts_with('{') implies len >= 1"),
-    (r'FlexiLogger as log::Log>::log$', 'unwrap', r'Result::unwrap<&std::sync::RwLockReadGuard', 1, 'POI', 'spec lock, poison only'),
+    (r'FlexiLogger as log::Log>::(enabled|log)$', 'assert', r'overflow:Sub', 2, 'INV', "starts_with('{') implies len >= 1"),
+    (r'FlexiLogger as log::Log>::log$', 'unwrap', r'Result::unwrap<std::sync::RwLockReadGuard', 1, 'POI', 'spec lock, poison only'),
     (r'Duplicate as std::convert::From<u8>>::from$', 'panic', r'.*', 1, 'INV', 'discharged by R13.4 (identity on 0..=6)'),
-    (r'MultiWriter as writers::log_writer::LogWriter>::max_log_level$', 'unwrap', r'Option::unwrap<&log::LevelFilter>', 1, 'INV',
+    (r'MultiWriter as writers::log_writer::LogWriter>::max_log_level$', 'unwrap', r'Option::unwrap<log::LevelFilter>', 1, 'INV',
      'MultiWriter is crate-private and never stored among the additional writers, whose max_log_level() is the only caller (checked below)'),
     (r'BufferWriter as writers::log_writer::LogWriter>::write$', 'assert', r'overflow:(Add|Sub)', 3, 'INV', 'byte accounting of the snapshot buffer; drifts only if a custom format emits invalid UTF-8 (user code)'),
     (r'syslog::connection::Connection as std::io::Write>::write$', 'assert', r'overflow:Add', 1, 'INV', 'small constant added to a length'),
     (r'^deferred_now::DeferredNow::force_utc$', 'unwrap', r'Result::unwrap<std::sync::MutexGuard', 1, 'POI', 'force-utc mutex'),
-    (r'^deferred_now::DeferredNow::force_utc$', 'panic', r'panic_fmt', 1, 'F', 'documented panic, but raised with the force-utc guard held (F19)'),
+    (r'^deferred_now::DeferredNow::force_utc$', 'panic', r'panic_fmt', 1, 'F', 'documented panic, but raised with the force-utc guard held (F19)', 'F19-force_utc-panics-holding-its-guard'),
     (r'^deferred_now::DeferredNow::format_rfc3164$', 'panic', r'.*', 1, 'INV', 'chrono month() is in 1..=12'),
     (r'^deferred_now::use_utc$', 'unwrap', r'Result::unwrap<std::sync::MutexGuard', 1, 'POI', 'force-utc mutex (poisoned only through F19)'),
     (r'^flexi_logger::FlexiLogger::primary_enabled$', 'unwrap', r'Result::unwrap<std::sync::RwLockReadGuard', 1, 'POI', 'spec lock'),
     (r'formats::_::_serde::Serialize for formats::LogLine', 'assert', r'overflow:Add', 8, 'GEN', 'serde-derive generated field counting'),
     (r'^log_specification::LogSpecification::to_toml_impl$', 'index', r'Vec<log_specification::ModuleFilter>', 1, 'INV', 'dominated by the is_empty() test of the same condition'),
-    (r'^logger::create_specfile_watcher$', 'unwrap', r'Option::unwrap<&std::path::Path>', 1, 'INV', 'parent of a canonicalised file path'),
+    (r'^logger::create_specfile_watcher$', 'unwrap', r'Option::unwrap<std::path::Path>', 1, 'INV', 'parent of a canonicalised file path'),
     (r'^logger_handle::LoggerHandle::push_temp_spec$', 'unwrap', r'Result::unwrap<std::sync::RwLockReadGuard', 1, 'POI', 'spec lock'),
     (r'FileSpec::collision_free_infix_for_rotated_file$', 'unwrap', r'Option::unwrap<std::path::PathBuf>', 1, 'INV', 'pop() dominated by !is_empty()'),
-    (r'FileSpec::collision_free_infix_for_rotated_file$', 'unwrap', r'Option::unwrap<&std::ffi::OsStr>', 1, 'INV', 'element of a directory listing has a file stem'),
+    (r'FileSpec::collision_free_infix_for_rotated_file$', 'unwrap', r'Option::unwrap<std::ffi::OsStr>', 2, 'INV', 'element of a directory listing has a file stem / file name'),
     (r'FileSpec::collision_free_infix_for_rotated_file$', 'unwrap', r'Option::unwrap<usize>', 1, 'INV', 'the sibling filter requires the substring'),
     (r'FileSpec::collision_free_infix_for_rotated_file$', 'assert', r'overflow:Add', 3, 'INV', 'small constants added to an offset'),
-    (r'FileSpec::collision_free_infix_for_rotated_file$', 'index', r'String', 1, 'F', 'F10: 4 bytes after ".restart-" of a possibly foreign file name'),
-    (r'FileSpec::collision_free_infix_for_rotated_file$', 'unwrap', r'Result::unwrap<usize>', 1, 'F', 'F10: parse of those bytes'),
-    (r'FileSpec::collision_free_infix_for_rotated_file::\{closure#1\}$', 'unwrap', r'Option::unwrap<&std::ffi::OsStr>', 1, 'INV', 'listing element has a file name'),
+    (r'FileSpec::collision_free_infix_for_rotated_file$', 'index', r'String', 1, 'F', 'F10: 4 bytes after ".restart-" of a possibly foreign file name', 'F10-restart-sibling-fixed-slice'),
+    (r'FileSpec::collision_free_infix_for_rotated_file$', 'unwrap', r'Result::unwrap<usize>', 1, 'F', 'F10: parse of those bytes', 'F10-restart-sibling-parse-unwrap'),
     (r'^parameters::file_spec::FileSpec::default_basename$', 'unwrap', r'.*', 1, 'INV', 'argv[0] without file name: environment, outside the quantifier'),
-    (r'FileSpec::filter_files::\{closure#1\}$', 'unwrap', r'Option::unwrap<&std::ffi::OsStr>', 1, 'INV', 'listing element has a file stem'),
-    (r'FileSpec::filter_files::\{closure#1\}$', 'index', r'str', 1, 'INV', '`..end` with end from find() on the same string'),
+    (r'FileSpec::filter_files$', 'unwrap', r'Option::unwrap<std::ffi::OsStr>', 1, 'INV', 'listing element has a file stem'),
+    (r'FileSpec::filter_files$', 'index', r'str', 1, 'INV', '`..end` with end from find() on the same string'),
     (r'^parameters::file_spec::FileSpec::try_from$', 'unwrap', r'.*', 2, 'DOC', 'rustdoc "# Panics"'),
     (r'^primary_writer::std_writer::StdWriter::new$', 'panic', r'.*', 2, 'INV', 'Logger::write_mode stores without_flushing() (R15.2)'),
-    (r'buffer_with$', 'tls', r'.*', 1, 'INV', 'LocalKey::with fails only during thread-local destruction: logging from TLS destructors is outside the quantifier'),
-    (r'^(threads::start_async_stdwriter|writers::file_log_writer::state::start_(async_fs_writer|sync_flusher|async_fs_flusher))$', 'unwrap', r'JoinHandle', 1, 'RES',
+    (r'buffer_with$', 'tls', r'.*', 2, 'INV', 'LocalKey::with fails only during thread-local destruction: logging from TLS destructors is outside the quantifier'),
+    (r'^(threads::start_async_stdwriter|writers::file_log_writer::state::start_(async_fs_writer|sync_flusher|async_fs_flusher))$', 'unwrap', r'JoinHandle', 4, 'RES',
      'documented intent: panic if a helper thread cannot be spawned at start-up'),
     (r'^trc::setup_tracing', 'unwrap', r'.*', 1, 'INV', 'subscriber outlives the closure; trc is declared experimental'),
     (r'^util::handle_error_error$', 'panic', r'.*', 1, 'DOC', 'Logger::panic_if_error_channel_is_broken (opt-out documented)'),
     (r'^util::try_writing_to_error_channel$', 'unwrap', r'Result::unwrap<std::sync::RwLockReadGuard', 1, 'POI', 'error-channel lock'),
     (r'InfixFilter::filter_infix$', 'unwrap', r'Option::unwrap<char>', 2, 'INV', 'len() > 2; second call only after first char == r (1 byte)'),
-    (r'RollState::increase_size$|State::initialize_with_rotation$|State::mount_next_linewriter_if_necessary$|numbers::index_for_rcurrent(::\{closure#0\}::\{closure#0\})?$',
-     'assert', r'overflow:Add', 1, 'INV', 'counters: > 4e9 rotations / 16 EiB'),
-    (r'numbers::get_highest_index$', 'unwrap', r'Option::unwrap<&std::ffi::OsStr>', 1, 'INV', 'listing element has a file stem'),
+    (r'RollState::increase_size$|State::initialize_with_rotation$|State::mount_next_linewriter_if_necessary$|numbers::index_for_rcurrent$',
+     'assert', r'overflow:Add', 5, 'INV', 'counters: > 4e9 rotations / 16 EiB'),
+    (r'numbers::get_highest_index$', 'unwrap', r'Option::unwrap<std::ffi::OsStr>', 1, 'INV', 'listing element has a file stem'),
     (r'numbers::get_highest_index$', 'index', r'str', 1, 'INV', 'only when the fixed part is empty; the Numbrs filter forces first byte r'),
-    (r'start_async_fs_writer::\{closure#0\}$', 'unwrap', r'Result::unwrap<std::sync::MutexGuard', 1, 'POI', 'state mutex'),
+    (r'start_async_fs_writer$', 'unwrap', r'Result::unwrap<std::sync::MutexGuard', 1, 'POI', 'state mutex'),
     (r'timestamps::timestamp_from_ts_infix$', 'unwrap', r'Option::unwrap<chrono::NaiveDateTime>', 1, 'INV', 'and_hms_opt with constant arguments'),
     (r'timestamps::ts_infix_from_path$', 'unwrap', r'Option::unwrap<usize>', 1, 'INV', 'the string was built from that infix'),
     (r'timestamps::ts_infix_from_path$', 'assert', r'overflow:Add', 1, 'INV', 'constant added to an offset'),
-    (r'timestamps::ts_infix_from_path$', 'index', r'\[u8\]', 1, 'F', 'F9: fixed 20-byte slice, custom timestamp formats may be shorter'),
-    (r'StateHandle::write::\{closure#0\}$', 'unwrap', r'Result::expect<std::sync::MutexGuard', 2, 'POI', 'state mutex'),
+    (r'timestamps::ts_infix_from_path$', 'index', r'\[u8\]', 1, 'F', 'F9: fixed 20-byte slice, custom timestamp formats may be shorter', 'F9-ts-infix-fixed-20-byte-slice'),
+    (r'StateHandle::write$', 'unwrap', r'Result::expect<std::sync::MutexGuard', 2, 'POI', 'state mutex'),
     (r'list_and_cleanup::start_cleanup_thread$', 'assert', r'overflow:Mul', 1, 'INV', 'constant stack size 512 * 1024'),
+    # class rule (any function): taking a std lock and unwrapping the LockResult fails only on a poisoned lock; poisoning needs a panic
+    # while the lock is held, which R10.2 excludes for the log-path locks
+    (r'.', 'unwrap', r'^Result::(unwrap|expect)<std::sync::(MutexGuard|RwLockReadGuard|RwLockWriteGuard)<', 99, 'POI', 'lock result: poison only'),
 ]
+
+def norm_what(w):
+    """operand type without reference / lifetime decoration: `Option::unwrap<&log::LevelFilter>` and `Option::unwrap<log::LevelFilter>` are one class"""
+    return re.sub(r"&('\w+ )?(mut )?", '', w)
+
+
+def row_label(tr):
+    return re.sub(r'[\\^$]', '', tr[0])
+
 
 LOOP_TRIAGE = {
     # (function regex) -> (reason, structural guard checker name)
@@ -93,8 +104,8 @@ def run(R, ctx):
     reach = cg.reachable(entries + spawned, spawn=True)
     R.stats.setdefault('entries', {})[ctx.cfg] = len(entries)
     R.stats.setdefault('reachable_bodies', {})[ctx.cfg] = len(reach)
-    counts = {}
     nsites = 0
+    sites = []
     for p in sorted(reach):
         b = f.bodies[p]
         if b.promoted is not None or b.doc_hidden or 'validate_logs' in p:
@@ -103,37 +114,53 @@ def run(R, ctx):
             if s['kind'] == 'assert' and s['what'].startswith('other:'):
                 continue        # debug-build pointer checks on Box derefs, not source-level constructs
             nsites += 1
-            row = next((i for i, tr in enumerate(TRIAGE) if re.search(tr[0], p) and tr[1] == s['kind'] and re.search(tr[2], s['what'])), None)
             held = la.may_held(p, s['bb'])
             loglocks = sorted(h for h in held if guard_kind(h) == 'lock' and any(x in h for x in LOGLOCKS))
-            if row is None:
-                R.bad('R10.1', f"{p}|{s['kind']}|{s['what']}", f"new may-panic site in {p}: {s['kind']} ({s['what']}) — reachable from the public surface and not in the triaged inventory"
-                      + (f"; executes with {loglocks} held: a panic here poisons the lock and every later log call panics" if loglocks else ''), where=b.loc(s['bb']))
-                continue
-            tr = TRIAGE[row]
-            counts.setdefault(row, []).append((p, s, loglocks, b))
-    for row, lst in sorted(counts.items()):
+            sites.append((p, s, loglocks, b))
+    # 1. sites in the function (or a closure of the function) their triage row names
+    assigned = {i: [] for i in range(len(TRIAGE))}
+    unmatched = []
+    for site in sites:
+        p, s = site[0], site[1]
+        what = norm_what(s['what'])
+        row = next((i for i, tr in enumerate(TRIAGE) if re.search(tr[0], root_fn(p)) and tr[1] == s['kind'] and re.search(tr[2], what) and len(assigned[i]) < tr[3]), None)
+        if row is None:
+            unmatched.append(site)
+        else:
+            assigned[row].append(site)
+    # 2. a site of the same kind and operand type that left its triaged function (extracted helper, moved or renamed
+    #    function, loop turned into a closure) is the triaged site, not a new one: pair it with a row that lost one
+    moved = 0
+    for site in unmatched:
+        p, s, loglocks, b = site
+        what = norm_what(s['what'])
+        row = next((i for i, tr in enumerate(TRIAGE) if tr[1] == s['kind'] and tr[2] != r'.*' and re.search(tr[2], what) and len(assigned[i]) < tr[3]
+                    and not re.search(tr[0], root_fn(p))), None)
+        if row is None:
+            R.bad('R10.1', f"{root_fn(p)}|{s['kind']}|{what}", f"new may-panic site in {p}: {s['kind']} ({s['what']}) — reachable from the public surface and not in the triaged inventory"
+                  + (f"; executes with {loglocks} held: a panic here poisons the lock and every later log call panics" if loglocks else ''), where=b.loc(s['bb']))
+            continue
+        assigned[row].append(site)
+        moved += 1
+    R.stats.setdefault('may_panic_sites_moved', {})[ctx.cfg] = moved
+    for row, lst in sorted(assigned.items()):
         tr = TRIAGE[row]
-        per_fn = {}
-        for (p, s, loglocks, b) in lst:
-            per_fn.setdefault(p, []).append((s, loglocks, b))
-        for p, xs in per_fn.items():
-            key = f"{p}|{tr[1]}|{tr[2]}"
-            if len(xs) > tr[3]:
-                R.bad('R10.1', key + '|count', f"{len(xs)} may-panic sites of kind {tr[1]} ({tr[2]}) in {p}, the triage covers {tr[3]} ({tr[5]})", where=xs[-1][2].loc(xs[-1][0]['bb']))
-                continue
-            s, loglocks, b = xs[0]
-            if tr[4] == 'F':
-                R.bad('R10.1', key, f"{p}: {tr[1]} ({s['what']}) can panic: {tr[5]}" + (f"; under {loglocks}" if loglocks else ''), where=b.loc(s['bb']))
-            else:
-                R.ok('R10.1', key, f"{tr[4]}: {tr[5]}", sample={'fn': p, 'kind': tr[1], 'class': tr[4], 'reason': tr[5], 'locks_held': loglocks})
-                if loglocks and tr[4] not in ('INV', 'POI', 'GEN'):
-                    if tr[4] == 'DOC' and p.endswith('handle_error_error'):
-                        R.ok('R10.2', key, 'documented opt-in panic (panic_if_error_channel_is_broken)', nontrivial=False)
-                    else:
-                        R.bad('R10.2', key, f"{p}: a {tr[4]}-class panic ({tr[1]}) can happen while {loglocks} is held: the lock is poisoned and later log calls panic", where=b.loc(s['bb']))
-                elif loglocks:
-                    R.ok('R10.2', key, f"under {loglocks}: excluded by invariant / poison only")
+        if not lst:
+            continue
+        key = tr[6] if len(tr) > 6 else f"{row_label(tr)}|{tr[1]}|{tr[2]}"
+        p, s, loglocks, b = lst[0]
+        loglocks = sorted({l for x in lst for l in x[2]})
+        if tr[4] == 'F':
+            R.bad('R10.1', key, f"{p}: {tr[1]} ({s['what']}) can panic: {tr[5]}" + (f"; under {loglocks}" if loglocks else ''), where=b.loc(s['bb']))
+        else:
+            R.ok('R10.1', key, f"{tr[4]}: {tr[5]}", sample={'fn': p, 'kind': tr[1], 'class': tr[4], 'reason': tr[5], 'locks_held': loglocks, 'sites': len(lst)})
+            if loglocks and tr[4] not in ('INV', 'POI', 'GEN'):
+                if tr[4] == 'DOC' and p.endswith('handle_error_error'):
+                    R.ok('R10.2', key, 'documented opt-in panic (panic_if_error_channel_is_broken)', nontrivial=False)
+                else:
+                    R.bad('R10.2', key, f"{p}: a {tr[4]}-class panic ({tr[1]}) can happen while {loglocks} is held: the lock is poisoned and later log calls panic", where=b.loc(s['bb']))
+            elif loglocks:
+                R.ok('R10.2', key, f"under {loglocks}: excluded by invariant / poison only")
     R.stats.setdefault('may_panic_sites', {})[ctx.cfg] = nsites
     # MultiWriter never among the additional writers: who constructs a MultiWriter
     makers = sorted({b2.path for (b2, bb, s) in aggregate_sites(f, r'multi_writer::MultiWriter$')})
@@ -143,14 +170,14 @@ def run(R, ctx):
     user_callbacks(R, ctx)
     lock_order(R, ctx)
     # R10.5 / R10.6
-    allowed_recv = r'start_async_fs_writer::\{closure#0\}$|start_async_stdwriter::\{closure#0\}$|start_cleanup_thread::\{closure#0\}$'
+    allowed_recv = r'start_async_fs_writer$|start_async_stdwriter$|start_cleanup_thread$'
     for p_, es in cg.ext.items():
         for (n, bb, t) in es:
             if re.search(r'Receiver::<T>::recv$', n):
-                R.check('R10.5', f"{p_}|recv", bool(re.search(allowed_recv, p_)), "blocking recv in a consumer loop",
+                R.check('R10.5', f"{root_fn(p_)}|recv", bool(re.search(allowed_recv, root_fn(p_))) and p_ != root_fn(p_), "blocking recv in a consumer loop",
                         f"blocking recv() outside the consumer loops in {p_}: the calling thread can hang", where=f.bodies[p_].loc(bb))
             if re.search(r'^std::cell::RefCell::<T>::borrow(_mut)?$', n):
-                R.bad('R10.6', f"{p_}|{n.split('::')[-1]}", f"panicking RefCell borrow in {p_} (recursive logging would panic instead of using the fallback)", where=f.bodies[p_].loc(bb))
+                R.bad('R10.6', f"{root_fn(p_)}|{n.split('::')[-1]}", f"panicking RefCell borrow in {p_} (recursive logging would panic instead of using the fallback)", where=f.bodies[p_].loc(bb))
     R.ok('R10.6', 'no-panicking-borrow', 'only try_borrow_mut is used')
     loops(R, ctx, reach)
 
@@ -175,7 +202,7 @@ def user_callbacks(R, ctx):
                 continue
             held = sorted(h for h in la.may_held(p_, bb) if guard_kind(h) == 'lock')
             n += 1
-            key = f"{p_}|{what}"
+            key = f"{root_fn(p_)}|{what}"
             R.check('R10.3', key, not held, "no non-reentrant lock held at the callback",
                     f"{p_} calls user code ({what}) while holding {[protected(h) for h in held]}: a callback that logs (e.g. a Display impl) dead-locks or re-enters the same lock",
                     where=b.loc(bb), witness=f"held: {held}")
@@ -241,14 +268,14 @@ def loops(R, ctx, reach):
             cal = l['callees']
             if any(re.search(r'Iterator>::next$|::next$', c) for c in cal):
                 # iterator-driven: the None edge of next leaves the loop
-                R.ok('R10.7', f"{p}|loop@iter", 'iterator-driven loop', nontrivial=True)
+                R.ok('R10.7', f"{root_fn(p)}|loop@iter", 'iterator-driven loop', nontrivial=True)
                 continue
             if any(re.search(r'Receiver::<T>::recv(_timeout)?$', c) for c in cal):
-                R.ok('R10.7', f"{p}|loop@recv", 'receive/timer-driven thread loop')
+                R.ok('R10.7', f"{root_fn(p)}|loop@recv", 'receive/timer-driven thread loop')
                 continue
             tri = next(((why, chk) for rx, (why, chk) in LOOP_TRIAGE.items() if re.search(rx, p)), None)
             if tri is None:
-                R.bad('R10.7', f"{p}|loop@other", f"loop in {p} (line {l['line']}) is neither iterator- nor receive-driven and not in the triaged loop table: its termination is not argued "
+                R.bad('R10.7', f"{root_fn(p)}|loop@other", f"loop in {p} (line {l['line']}) is neither iterator- nor receive-driven and not in the triaged loop table: its termination is not argued "
                       f"(calls inside: {[c.split('::')[-1] for c in cal][:6]})", where=b.loc(l['header']))
                 continue
             ok = True
@@ -256,10 +283,10 @@ def loops(R, ctx, reach):
             if tri[1] == 'buffer_guard':
                 ok, detail = buffer_guard(b, l)
                 if not ok:
-                    R.bad('R10.7', f"{p}|loop@other", f"eviction loop in {p}: {detail} — with an empty queue and a line longer than max_size the loop never ends (the log call hangs while holding the buffer lock)",
+                    R.bad('R10.7', f"{root_fn(p)}|loop@other", f"eviction loop in {p}: {detail} — with an empty queue and a line longer than max_size the loop never ends (the log call hangs while holding the buffer lock)",
                           where=b.loc(l['header']))
                     continue
-            R.ok('R10.7', f"{p}|loop@other", f"triaged: {why}")
+            R.ok('R10.7', f"{root_fn(p)}|loop@other", f"triaged: {why}")
 
 
 def buffer_guard(b, loop):
